@@ -124,12 +124,74 @@ def r1c_inherent_pairs(ctx, F):
     ctx.floor("container-instances", total, 4)
 
 
+# ---- R2: MaslLibrary - writer and reader follow the same schema (skeleton comparison) ------------------------------------
+def r2_masl_schema(ctx, F):
+    """MaslLibrary::write_into and ::read_from are interpreted as skeletons (sub-codec calls and byte primitives recorded,
+    everything else unknown, collections represented by one element): on corresponding paths the reader consumes exactly the
+    fields the writer produces, in the same order, with the same primitive widths; the module path is stripped of / prefixed
+    with the namespace at the corresponding position"""
+    from . import execmodel
+    ids = {k: F.fns[k] for k in F.fns if "MaslLibrary@" in k and "closure" not in k and (k.endswith("::write_into") or k.endswith("::read_from"))}
+    w = [f for k, f in ids.items() if k.endswith("write_into")]
+    r = [f for k, f in ids.items() if k.endswith("read_from")]
+    ctx.inst(key="MaslLibrary", nontrivial=True)
+    if len(w) != 1 or len(r) != 1:
+        ctx.violation("masl-codec-missing", "assembly/src/library/masl.rs", "MaslLibrary Serializable / Deserializable impls not found (%d / %d)" % (len(w), len(r)))
+        return
+    rec = r"::write_into$|::read_from$|ByteWriter::write_\w+$|ByteReader::read_\w+$|strip_first$|prepend$|write_source_locations$|load_source_locations$"
+    inl = r"MaslLibrary@\w+::(write_into|read_from)(::\{closure#\d+\})?$"
+    norm = {"strip_first": "path-namespace", "prepend": "path-namespace", "write_source_locations": "source-locations", "load_source_locations": "source-locations"}
+
+    def schema(fn):
+        out = []
+        for p in execmodel.skeleton_paths(F, fn, inl, rec, lambda: execmodel.havoc_args(fn, F), max_paths=64):
+            if p["outcome"][0] == "unanalysable":
+                raise Unanalysable(p["outcome"][1])
+            if p["outcome"] != ("ok",):
+                continue
+            toks = []
+            for e in p["events"]:
+                if len(e) < 3:
+                    continue
+                name, owner = e[0], e[2]
+                if name in norm:
+                    toks.append(norm[name])
+                elif name in ("write_into", "read_from"):
+                    toks.append("codec:" + owner)
+                else:
+                    toks.append("prim:" + re.sub(r"^(write|read)_", "", name))
+            out.append(toks)
+        return out
+    try:
+        ws, rs = schema(w[0]), schema(r[0])
+    except (Unanalysable, PanicReached) as e:
+        ctx.violation("UNANALYSABLE|MaslLibrary-schema", w[0].loc(), str(e)[:300])
+        return
+    # the path-namespace step happens before the path is written and after it is read: compare modulo that adjacent swap
+    def canon(toks):
+        t = list(toks)
+        for i in range(len(t) - 1):
+            if t[i] == "path-namespace" and t[i + 1] == "codec:LibraryPath":
+                t[i], t[i + 1] = t[i + 1], t[i]
+        return tuple(t)
+    wset, rset = sorted(set(canon(t) for t in ws)), sorted(set(canon(t) for t in rs))
+    ok = bool(wset) and wset == rset
+    ctx.oblig(ok)
+    ctx.sample({"writer_schemas": [list(t) for t in wset], "reader_schemas": [list(t) for t in rset]})
+    if not ok:
+        only_w = [t for t in wset if t not in rset]
+        only_r = [t for t in rset if t not in wset]
+        ctx.violation("masl-schema-mismatch", w[0].loc(), "MaslLibrary: the writer produces %s but the reader consumes %s: a library written to bytes is not read back field by field"
+                      % ([list(t) for t in only_w][:2], [list(t) for t in only_r][:2]))
+
+
 def run(ctx, F):
     ctx.trusted += ["rustc MIR via mirfacts", "mirsym; serde model (vlib/serdemodel.py): recording writer / replaying reader, abstract string validators",
                     "winter-utils ByteReader/ByteWriter semantics (modelled per method)"]
     ctx.assumptions += ["collections are analysed for a representative length (2 elements), strings for length 3 with symbolic bytes",
                         "values handed to writers are valid (label / path validators are abstract and assumed to accept them)",
                         "equality of recompiled MAST roots is not decided"]
+    ctx.run_rule("C10-R2", "MaslLibrary: writer and reader follow the same schema (order of sub-codecs, primitive widths, namespace handling of module paths, optional source locations) on corresponding paths", r2_masl_schema, F)
     ctx.run_rule("C10-R1", "every trait Serializable/Deserializable pair: reader(writer(v)) == v for a symbolic v of every enum variant (non-trivial = variant with payload)", r1_trait_pairs, F)
     ctx.run_rule("C10-R1b", "OpCode discriminants are unique bytes and every Instruction variant has an opcode", r1b_opcode_table, F)
     ctx.run_rule("C10-R1c", "ProgramAst / ModuleAst inherent write_into/read_from pairs under both serde options", r1c_inherent_pairs, F)
